@@ -949,6 +949,15 @@ class Exec(Engine):
             st.env[s.targets[0].id] = st.alloc(Dict(k, v, z3.K(ks, z3.BoolVal(False)),
                                                     fresh('emptyval', z3.ArraySort(ks, self.sort_of_kind(v)))))
             return [Result(st)]
+        if (isinstance(s.value, ast.List) and not s.value.elts and len(s.targets) == 1
+                and isinstance(s.targets[0], ast.Name)
+                and ((self.cur.extra.get('locals') or {}).get(s.targets[0].id) or '').startswith('Arr[')):
+            # a declared local list that starts empty and is appended to: a heap list of that element kind
+            ek = self.cur.extra['locals'][s.targets[0].id][4:-1].strip().lower()
+            st = st.copy()
+            st.env[s.targets[0].id] = st.alloc(Arr(ek, fresh('emptylist', z3.ArraySort(I, self.sort_of_kind(ek))),
+                                                   z3.IntVal(0), 'list'))
+            return [Result(st)]
         for r in self.ev(s.value, st):
             if r.exc is not None:
                 out.append(Result(r.st, exc=r.exc, flow='raise'))
@@ -1206,6 +1215,10 @@ class Exec(Engine):
                               % (self.rel, s.lineno, ordinal, self.loop_header(s), want))
         return ordinal, lc
 
+    def has_loop_contract(self, s):
+        ordinal = self.loop_ordinals.get(id(s))
+        return ordinal is not None and self.cur is not None and self.cur.loops.get(ordinal) is not None
+
     def loop_header(self, s):
         if isinstance(s, ast.For):
             return 'for %s in %s' % (ast.unparse(s.target), ast.unparse(s.iter))
@@ -1278,7 +1291,60 @@ class Exec(Engine):
             return v
         raise EngineError('%s:%d: iteration over %s' % (self.rel, s.lineno, itv.kind))
 
+    def cut_tuple_loop(self, s, st, ordinal, lc, items):
+        """for over a concrete sequence (a list display of known length) *with* a loop contract: instead of
+        unrolling along every path (exponential in the number of items when the body branches), each position is
+        verified on its own from a havoced state that satisfies the invariants at that position - the same cut as
+        cut_loop, with a concrete index."""
+        line = s.lineno
+        tag = 'loop%d' % ordinal
+        invs = lc.get('invariant', [])
+        idx_name = lc.get('index', '__i%d' % ordinal)
+
+        def inv_terms(state, p):
+            return [self.sbool(iv, state, {idx_name: VInt(z3.IntVal(p))}) for iv in invs]
+        entry = st.copy()
+        entry.marks = dict(entry.marks)
+        entry.marks[tag] = st.snapshot()
+        for j, t in enumerate(inv_terms(entry, 0)):
+            self.oblige(entry, '%s/inv%d-init' % (tag, j), t, line)
+        hv = entry.copy()
+        names = assigned_names(s.body) | assigned_names([s])
+        for nm in sorted(names):
+            if nm in hv.env:
+                hv.env[nm] = self.fresh_like(hv, hv.env[nm], nm)
+        for ref in self.written_nodes(s.body, entry):
+            self.havoc_node(hv, ref)
+        for path in lc.get('modifies', []):
+            self.havoc_path(hv, path)
+        out, after_break = [], []
+        for p, item in enumerate(items):
+            it = hv.copy()
+            for j, t in enumerate(inv_terms(it, p)):
+                it.assume(t, tag='%s/inv%d' % (tag, j))
+            if not self.feasible(it):
+                continue
+            for r0 in self.assign(s.target, item, it):
+                for r in self.exec_block(s.body, r0.st):
+                    if r.flow in ('normal', 'continue'):
+                        self.oblige(r.st, 'sentinel/%s-body-reachable' % tag, z3.BoolVal(False), line)
+                        for j, t in enumerate(inv_terms(r.st, p + 1)):
+                            self.oblige(r.st, '%s/inv%d-preserved' % (tag, j), t, line)
+                    elif r.flow == 'break':
+                        after_break.append(Result(r.st))
+                    else:
+                        out.append(r)
+        ex = hv.copy()
+        for j, t in enumerate(inv_terms(ex, len(items))):
+            ex.assume(t, tag='%s/inv%d' % (tag, j))
+        if self.feasible(ex):
+            out.append(Result(ex))
+        return out + after_break
+
     def for_loop(self, s, st, itv):
+        if itv.kind == 'tuple' and self.has_loop_contract(s):
+            ordinal, lc = self.loop_contract(s)
+            return self.cut_tuple_loop(s, st, ordinal, lc, itv.items)
         if itv.kind == 'tuple':
             # concrete sequence: unroll
             states = [st]
